@@ -1,167 +1,223 @@
 /-
-  The probe loop over whole histories: an instance has exactly one outstanding effective probe timer while it is
-  connected and none otherwise (effective = carrying the current token), provided the `u8` token does not wrap
-  onto a timer that is still outstanding (the property's "fewer than 256 epoch changes between issue and delivery").
+  The recurring loops over whole histories (probe round, periodic announce, announce-to-down, gossip): while an
+  instance is connected it has exactly one outstanding effective timer of every enabled loop, and none otherwise
+  (effective = carrying the current token), provided the `u8` token does not wrap onto a timer that is still
+  outstanding (the property's "fewer than 256 epoch changes between issue and delivery").
 -/
 import FocaModel.Proofs.Quiet
 import FocaModel.Proofs.Units
 import FocaModel.Props.C13
 namespace Foca
 
-/-- inside one call that started at epoch `e0` with `base` effective probe timers outstanding from before -/
-def TimInv (e0 base : Nat) (s : State) (eff : List Effect) : Prop :=
+def LoopKind.no : LoopKind → Nat
+  | .probe => 0 | .pa => 1 | .pad => 2 | .pg => 3
+
+theorem kindTimer_of_other_loop (k : LoopKind) (p : Nat) (t : Timer) (h : t.loopNo ≠ some k.no) :
+    kindTimer k (.timer p t) = false := by
+  cases k <;> cases t <;> simp [Timer.loopNo, LoopKind.no] at h <;> rfl
+
+def connNat (s : State) : Nat := if s.conn = .connected then 1 else 0
+
+/-- inside one call that started at epoch `e0` with `base` effective timers of loop `k` outstanding from before -/
+def TimInv (k : LoopKind) (e0 base : Nat) (s : State) (eff : List Effect) : Prop :=
   s.epoch ≥ e0 + 256 ∨
   (e0 ≤ s.epoch ∧ s.token = s.epoch % 256 ∧
-   (∀ t ∈ probeToks eff, ∃ e, e0 ≤ e ∧ e ≤ s.epoch ∧ t = e % 256) ∧
-   (probeToks eff).count s.token + (if s.epoch = e0 then base else 0) = (if s.conn = .connected then 1 else 0))
+   (∀ t ∈ loopToks k eff, ∃ e, e0 ≤ e ∧ e ≤ s.epoch ∧ t = e % 256) ∧
+   (loopToks k eff).count s.token + (if s.epoch = e0 then base else 0) ≤ connNat s ∧
+   (k.en s.cfg = true → (loopToks k eff).count s.token + (if s.epoch = e0 then base else 0) = connNat s))
 
-theorem TimInv.frame (e0 base : Nat) : TimerFrame (TimInv e0 base) := by
-  intro s s' eff eff' h1 h2 h3 h4 h
-  unfold TimInv at *
+theorem TimInv.frame (k : LoopKind) (e0 base : Nat) : TimerFrame k (TimInv k e0 base) := by
+  intro s s' eff eff' h1 h2 h3 hen h4 h
+  unfold TimInv connNat at *
   rw [h1, h2, h3, h4]
-  exact h
+  rcases h with h | ⟨a, b, c, d, e⟩
+  · exact Or.inl h
+  · exact Or.inr ⟨a, b, c, d, fun h' => e (hen h')⟩
 
 /-- an epoch change (token and epoch move on together, the instance is not connected afterwards) -/
-theorem TimInv.bump {e0 base : Nat} {s : State} {eff : List Effect} (s' : State)
+theorem TimInv.bump {k : LoopKind} {e0 base : Nat} {s : State} {eff : List Effect} (s' : State)
     (htok : s'.token = wrapAdd8 s.token) (hep : s'.epoch = s.epoch + 1) (hconn : s'.conn ≠ .connected)
-    (h : TimInv e0 base s eff) : TimInv e0 base s' eff := by
+    (h : TimInv k e0 base s eff) : TimInv k e0 base s' eff := by
   unfold TimInv at *
-  rcases h with h | ⟨h1, h2, h3, _⟩
+  rcases h with h | ⟨h1, h2, h3, _, _⟩
   · left; omega
   · by_cases hb : s.epoch + 1 ≥ e0 + 256
     · left; omega
     · right
       have htok' : s'.token = (s.epoch + 1) % 256 := by rw [htok, h2]; unfold wrapAdd8; omega
-      refine ⟨by omega, by rw [htok', hep], ?_, ?_⟩
-      · intro t ht
-        obtain ⟨e, he1, he2, he3⟩ := h3 t ht
-        exact ⟨e, he1, by omega, he3⟩
-      · have hz : (probeToks eff).count s'.token = 0 := by
-          rw [List.count_eq_zero]
-          intro hmem
-          obtain ⟨e, he1, he2, he3⟩ := h3 _ hmem
-          rw [htok'] at he3
-          omega
-        have hne : ¬ s'.epoch = e0 := by omega
-        have hc : ¬ s'.conn = .connected := hconn
-        simp [hz, hne, hc]
+      have hz : (loopToks k eff).count s'.token = 0 := by
+        rw [List.count_eq_zero]
+        intro hmem
+        obtain ⟨e, he1, he2, he3⟩ := h3 _ hmem
+        rw [htok'] at he3
+        omega
+      have hne : ¬ s'.epoch = e0 := by omega
+      have hc : connNat s' = 0 := by unfold connNat; simp [hconn]
+      refine ⟨by omega, by rw [htok', hep], ?_, by simp [hz, hne, hc], fun _ => by simp [hz, hne, hc]⟩
+      intro t ht
+      obtain ⟨e, he1, he2, he3⟩ := h3 t ht
+      exact ⟨e, he1, by omega, he3⟩
+
+/-- the loops `become_connected` starts: one timer of loop `k`, in the current epoch, iff the loop is enabled -/
+theorem loopToks_expectedLoops (k : LoopKind) (s : State) :
+    loopToks k (C13.expectedLoops s) = if k.en s.cfg then [s.token] else [] := by
+  unfold C13.expectedLoops loopToks
+  cases k <;> cases hpa : s.cfg.pa <;> cases hpad : s.cfg.pad <;> cases hpg : s.cfg.pg <;>
+    simp [LoopKind.sel, LoopKind.en, hpa, hpad, hpg]
 
 section
-variable (E : Env) (e0 base : Nat)
+variable (E : Env) (k : LoopKind) (e0 base : Nat)
 
-theorem TimInv.core : CoreC E (TimInv e0 base) := CoreC.of_frame E (TimInv.frame e0 base)
+theorem TimInv.core : CoreC E k (TimInv k e0 base) := CoreC.of_frame E (TimInv.frame k e0 base).quiet
 
-theorem TimInv.bumpModS (f : State → State) (h : ∀ s, (f s).token = wrapAdd8 s.token ∧ (f s).epoch = s.epoch + 1 ∧ (f s).conn ≠ .connected) :
-    PresC (TimInv e0 base) (modS f) :=
+theorem TimInv.bumpModS (f : State → State)
+    (h : ∀ s, (f s).token = wrapAdd8 s.token ∧ (f s).epoch = s.epoch + 1 ∧ (f s).conn ≠ .connected) :
+    PresC (TimInv k e0 base) (modS f) :=
   ⟨fun c hc => by simp only [modS_run]; exact TimInv.bump (f c.s) (h c.s).1 (h c.s).2.1 (h c.s).2.2 hc⟩
 
-theorem TimInv.reset : PresC (TimInv e0 base) Foca.reset := by
+theorem TimInv.reset : PresC (TimInv k e0 base) Foca.reset := by
   unfold Foca.reset
-  exact TimInv.bumpModS e0 base _ (fun _ => ⟨rfl, rfl, by simp⟩)
+  exact TimInv.bumpModS k e0 base _ (fun _ => ⟨rfl, rfl, by simp⟩)
 
 include E in
-theorem TimInv.becomeUndead : PresC (TimInv e0 base) Foca.becomeUndead := by
+theorem TimInv.becomeUndead : PresC (TimInv k e0 base) Foca.becomeUndead := by
   unfold Foca.becomeUndead
   presc
-  · exact TimInv.bumpModS e0 base _ (fun _ => ⟨rfl, rfl, by simp⟩)
-  · exact (TimInv.core E e0 base).emitNP _ rfl
+  · exact TimInv.bumpModS k e0 base _ (fun _ => ⟨rfl, rfl, by simp⟩)
+  · exact (TimInv.core E k e0 base).emitNP _ (kindTimer_of_not_loop k _ rfl)
 
-/-- becoming active from the disconnected state starts exactly one probe loop, in the current epoch -/
-theorem TimInv.becomeConnected_at (s0 : State) (eff0 : List Effect) (h0 : TimInv e0 base s0 eff0)
-    (hcn : s0.conn = .disconnected) : PresCAt (TimInv e0 base) s0 eff0 (Foca.becomeConnected E) := by
-  have K := TimInv.core E e0 base
-  unfold Foca.becomeConnected
-  apply PresCAt.getS_bind
-  apply PresCAt.ite
-  · intro _; exact PresCAt.panicAt _
-  · intro _
-    apply PresCAt.modS_bind
-    apply PresCAt.emit_bind
-    refine PresCAt.of_presC ?_ ?_
-    · unfold TimInv at h0 ⊢
-      rcases h0 with h | ⟨h1, h2, h3, h4⟩
-      · exact Or.inl h
-      · right
-        refine ⟨h1, h2, ?_, ?_⟩
-        · intro t ht
-          rw [probeToks_append, List.mem_append] at ht
-          rcases ht with ht | ht
-          · exact h3 t ht
-          · simp [probeToks] at ht
-            exact ⟨s0.epoch, h1, Nat.le_refl _, by rw [ht, h2]⟩
-        · rw [hcn] at h4
-          have hz : (if Conn.disconnected = Conn.connected then 1 else 0) = 0 := rfl
-          rw [hz] at h4
-          rw [probeToks_append, List.count_append]
-          have h1c : (probeToks [Effect.timer s0.cfg.probePeriod (Timer.probe s0.token)]).count s0.token = 1 := by
-            simp [probeToks]
-          simp only [h1c, if_true]
-          omega
-    · presc
-      all_goals exact K.emitNP _ rfl
-
-/-- going idle ends the epoch; becoming active — only ever from the disconnected state — starts exactly one probe
-    loop in the current epoch -/
-theorem TimInv.adjustConnectionState : PresC (TimInv e0 base) (Foca.adjustConnectionState E) := by
-  have K := TimInv.core E e0 base
+/-- going idle ends the epoch; becoming active — only ever from the disconnected state — starts exactly one loop
+    of every enabled kind in the current epoch -/
+theorem TimInv.adjustConnectionState : PresC (TimInv k e0 base) (Foca.adjustConnectionState E) := by
+  have K := TimInv.core E k e0 base
   constructor
   intro c hc
   unfold Foca.adjustConnectionState
-  simp only [bind_run, getS_run]
+  rw [bind_run, getS_run]
+  simp only []
   cases hcn : c.s.conn with
-  | undead => exact hc
+  | undead => simp only [pure_run]; exact hc
   | connected =>
-    simp only
+    simp only []
     by_cases hnum : (c.s.numActive == 0) = true
     · simp only [hnum, if_true]
-      have : PresC (TimInv e0 base) (Foca.becomeDisconnected E) := by
+      have : PresC (TimInv k e0 base) (Foca.becomeDisconnected E) := by
         unfold Foca.becomeDisconnected
         presc
-        · exact TimInv.bumpModS e0 base _ (fun _ => ⟨rfl, rfl, by simp⟩)
-        · exact K.emitNP _ rfl
+        · exact TimInv.bumpModS k e0 base _ (fun _ => ⟨rfl, rfl, by simp⟩)
+        · exact K.emitNP _ (kindTimer_of_not_loop k _ rfl)
       exact this.run c hc
     · simp only [hnum, Bool.false_eq_true, if_false, pure_run]
       exact hc
   | disconnected =>
-    simp only
+    simp only []
     by_cases hnum : c.s.numActive > 0
     · simp only [hnum, if_true]
-      exact (TimInv.becomeConnected_at E e0 base c.s c.eff hc hcn).run c rfl rfl
+      obtain ⟨c', hrun, hconn, htok, heff⟩ := C13.loops_started_on_connect E c (by omega)
+      rw [hrun]
+      simp only
+      -- everything but connection state and effects is as before (the exact run is known)
+      have hst : c'.s.epoch = c.s.epoch ∧ c'.s.cfg = c.s.cfg := by
+        unfold Foca.becomeConnected at hrun
+        simp only [bind_run, getS_run] at hrun
+        have hdbg : (E.debug && c.s.numActive == 0) = false := by
+          have : c.s.numActive ≠ 0 := by omega
+          simp [this]
+        simp only [hdbg, Bool.false_eq_true, if_false, modS_run, emit_run] at hrun
+        cases hpa : c.s.cfg.pa <;> cases hpad : c.s.cfg.pad <;> cases hpg : c.s.cfg.pg <;>
+          simp [hpa, hpad, hpg] at hrun <;> rw [← hrun] <;> exact ⟨rfl, rfl⟩
+      unfold TimInv at hc ⊢
+      rcases hc with h | ⟨h1, h2, h3, h4, h5⟩
+      · left; rw [hst.1]; exact h
+      · right
+        have hcn0 : connNat c.s = 0 := by unfold connNat; simp [hcn]
+        have hcn1 : connNat c'.s = 1 := by unfold connNat; simp [hconn]
+        have hn0 : (loopToks k c.eff).count c.s.token + (if c.s.epoch = e0 then base else 0) = 0 := by omega
+        have htoks : loopToks k c'.eff = loopToks k c.eff ++ (if k.en c.s.cfg then [c.s.token] else []) := by
+          rw [heff, loopToks_append, loopToks_append, loopToks_expectedLoops]
+          simp [loopToks]
+        refine ⟨by rw [hst.1]; exact h1, by rw [htok, hst.1]; exact h2, ?_, ?_, ?_⟩
+        · intro t ht
+          rw [htoks, List.mem_append] at ht
+          rcases ht with ht | ht
+          · obtain ⟨e, a, b, d⟩ := h3 t ht
+            exact ⟨e, a, by rw [hst.1]; exact b, d⟩
+          · split at ht
+            · simp at ht; exact ⟨c.s.epoch, h1, by rw [hst.1]; exact Nat.le_refl _, by rw [ht, h2]⟩
+            · simp at ht
+        · rw [htoks, htok, hst.1, hcn1, List.count_append]
+          split <;> simp <;> omega
+        · intro hen
+          rw [hst.2] at hen
+          rw [htoks, htok, hst.1, hcn1, List.count_append]
+          simp [hen]
+          omega
     · simp only [hnum, if_false, pure_run]
       exact hc
 
-theorem TimInv.leaves : LeavesC E (TimInv e0 base) probeTimer where
-  plain := fun _ _ h => h
-  keep := (TimInv.core E e0 base).keep
-  emitOther := (TimInv.core E e0 base).emitNP
-  removeDown := (TimInv.core E e0 base).removeDown
-  membersNext := (TimInv.core E e0 base).membersNext
-  sendMessage := (TimInv.core E e0 base).sendMessage
-  applyUpdate := (TimInv.core E e0 base).applyUpdate
-  applyExistingReport := (TimInv.core E e0 base).applyExistingReport
-  reset := TimInv.reset e0 base
-  becomeUndead := TimInv.becomeUndead E e0 base
-  adjustConnectionState := TimInv.adjustConnectionState E e0 base
+/-- `set_config` can switch a periodic task off, never on -/
+theorem TimInv.setConfig (cfg : Config) : PresC (TimInv k e0 base) (Foca.setConfig cfg) := by
+  constructor
+  intro c hc
+  unfold Foca.setConfig
+  rw [bind_run, getS_run]
+  simp only []
+  by_cases hinv : Gen.setConfigInvalid c.s.cfg cfg = true
+  · simp only [hinv, if_true, throwE_run]; exact hc
+  · have hinv' : Gen.setConfigInvalid c.s.cfg cfg = false := by simpa using hinv
+    simp only [hinv', Bool.false_eq_true, if_false, modS_run]
+    refine TimInv.frame k e0 base c.s _ c.eff _ rfl rfl rfl ?_ rfl hc
+    intro hen
+    obtain ⟨_, _, hpa, hpad, hpg⟩ := C13.set_config_cannot_enable_loops c.s.cfg cfg hinv'
+    cases k with
+    | probe => rfl
+    | pa =>
+      simp only [LoopKind.en] at hen ⊢
+      cases h : c.s.cfg.pa with
+      | none => rw [hpa h] at hen; simp at hen
+      | some p => rfl
+    | pad =>
+      simp only [LoopKind.en] at hen ⊢
+      cases h : c.s.cfg.pad with
+      | none => rw [hpad h] at hen; simp at hen
+      | some p => rfl
+    | pg =>
+      simp only [LoopKind.en] at hen ⊢
+      cases h : c.s.cfg.pg with
+      | none => rw [hpg h] at hen; simp at hen
+      | some p => rfl
 
+theorem TimInv.leaves : LeavesC E (TimInv k e0 base) (kindTimer k) where
+  plain := fun e _ h => kindTimer_of_not_loop k e h
+  keep := (TimInv.core E k e0 base).keep
+  emitOther := (TimInv.core E k e0 base).emitNP
+  removeDown := (TimInv.core E k e0 base).removeDown
+  membersNext := (TimInv.core E k e0 base).membersNext
+  sendMessage := (TimInv.core E k e0 base).sendMessage
+  applyUpdate := (TimInv.core E k e0 base).applyUpdate
+  applyExistingReport := (TimInv.core E k e0 base).applyExistingReport
+  reset := TimInv.reset k e0 base
+  becomeUndead := TimInv.becomeUndead E k e0 base
+  adjustConnectionState := TimInv.adjustConnectionState E k e0 base
+  setConfig := TimInv.setConfig k e0 base
 
-/-- "nothing the timer accounting looks at has changed since `c0`" -/
-def QuietSince (c0 : Ctx) (s : State) (eff : List Effect) : Prop :=
-  s.conn = c0.s.conn ∧ s.token = c0.s.token ∧ s.epoch = c0.s.epoch ∧ probeToks eff = probeToks c0.eff
+/-- the delivery of a loop timer of *another* kind keeps the accounting of loop `k` -/
+theorem TimInv.otherLoop (t : Timer) (ht : t.isLoop = true) (hk : t.loopNo ≠ some k.no) :
+    PresC (TimInv k e0 base) (Foca.handleTimer E t) :=
+  (TimInv.leaves E k e0 base).loopBranch t ht
+    (fun p t' h => (TimInv.core E k e0 base).emitNP _ (kindTimer_of_other_loop k p t' (by rw [h]; exact hk)))
 
-theorem QuietSince.frame (c0 : Ctx) : TimerFrame (QuietSince c0) := by
-  intro s s' eff eff' h1 h2 h3 h4 h
-  unfold QuietSince at *
-  rw [h1, h2, h3, h4]
-  exact h
+/-- what a re-armed loop looks like from `c0`: everything as before, plus one timer of loop `k` in the current epoch -/
+def Rearmed (k : LoopKind) (c0 : Ctx) (s : State) (eff : List Effect) : Prop :=
+  s.conn = c0.s.conn ∧ s.token = c0.s.token ∧ s.epoch = c0.s.epoch ∧ s.cfg = c0.s.cfg ∧
+    loopToks k eff = loopToks k c0.eff ++ [c0.s.token]
 
-/-- what a re-armed probe round looks like from `c0` -/
-def Rearmed (c0 : Ctx) (r : R Unit) : Prop :=
+/-- outcome of a probe round started in `c0` -/
+def ProbeRound (c0 : Ctx) (r : R Unit) : Prop :=
   match r with
-  | .ok _ c' => QuietSince c0 c'.s (c'.eff.dropLast) ∧
-      ∃ p, c'.eff = c'.eff.dropLast ++ [.timer p (.probe c0.s.token)]
-  | .err e c' => (e = .incompleteProbe ∧ QuietSince c0 c'.s (c'.eff.dropLast) ∧
-      ∃ p, c'.eff = c'.eff.dropLast ++ [.timer p (.probe c0.s.token)]) ∨
-      (e ≠ .incompleteProbe ∧ QuietSince c0 c'.s c'.eff)
+  | .ok _ c' => Rearmed .probe c0 c'.s c'.eff
+  | .err e c' => (e = .incompleteProbe ∧ Rearmed .probe c0 c'.s c'.eff) ∨
+      (e ≠ .incompleteProbe ∧ QuietSince .probe c0 c'.s c'.eff)
   | .stuck _ => True
 
 theorem probeSuspectFailed_no_err (c : Ctx) (e : ErrKind) (c' : Ctx) : probeSuspectFailed E c ≠ .err e c' := by
@@ -229,27 +285,20 @@ theorem probeStartNext_no_incomplete (c c' : Ctx) : probeStartNext E c ≠ .err 
         cases h1
 
 /-- the common tail of `probe_random_member`: suspect the failed target, ping the next member, re-arm -/
-theorem probeTail_rearms (c0 : Ctx) (b : Bool) (c1 : Ctx) (h1 : QuietSince c0 c1.s c1.eff) :
-    Rearmed c0 ((do
+theorem probeTail_rearms (c0 : Ctx) (b : Bool) (c1 : Ctx) (h1 : QuietSince .probe c0 c1.s c1.eff) :
+    ProbeRound c0 ((do
       probeSuspectFailed E
       probeStartNext E
       let s ← getS
       emit (.timer s.cfg.probePeriod (.probe s.token))
       if b then throwE .incompleteProbe) c1) := by
-  have K := CoreC.of_frame E (QuietSince.frame c0)
-  unfold Rearmed
+  have K := CoreC.of_frame E (QuietSince.frame .probe c0)
+  unfold ProbeRound
   rw [bind_run]
   have h2 := K.probeSuspectFailed.run c1 h1
   cases hr2 : probeSuspectFailed E c1 with
   | stuck x => trivial
-  | err e c2 =>
-    rw [hr2] at h2
-    simp only
-    right
-    refine ⟨?_, h2⟩
-    intro he
-    subst he
-    exact probeSuspectFailed_no_err E _ _ _ hr2
+  | err e c2 => exact absurd hr2 (probeSuspectFailed_no_err E _ _ _)
   | ok u2 c2 =>
     rw [hr2] at h2
     simp only at h2 ⊢
@@ -272,40 +321,164 @@ theorem probeTail_rearms (c0 : Ctx) (b : Bool) (c1 : Ctx) (h1 : QuietSince c0 c1
       simp only []
       rw [bind_run, emit_run]
       simp only []
-      obtain ⟨q1, q2, q3, q4⟩ := h3
+      obtain ⟨q1, q2, q3, q4, q5⟩ := h3
+      have hre : Rearmed .probe c0 c3.s (c3.eff ++ [.timer c3.s.cfg.probePeriod (.probe c3.s.token)]) := by
+        refine ⟨q1, q2, q3, q4, ?_⟩
+        rw [loopToks_append, q5, q2]
+        simp [loopToks, LoopKind.sel]
       cases b with
       | true =>
         simp only [if_true, throwE_run]
-        left
-        refine ⟨by first | rfl | trivial, ?_, ?_⟩
-        · simp only [List.dropLast_concat]
-          exact ⟨q1, q2, q3, q4⟩
-        · exact ⟨c3.s.cfg.probePeriod, by simp only [List.dropLast_concat, q2]⟩
+        exact Or.inl ⟨by first | rfl | trivial, hre⟩
       | false =>
         simp only [Bool.false_eq_true, if_false, pure_run]
-        refine ⟨?_, ?_⟩
-        · simp only [List.dropLast_concat]
-          exact ⟨q1, q2, q3, q4⟩
-        · exact ⟨c3.s.cfg.probePeriod, by simp only [List.dropLast_concat, q2]⟩
+        exact hre
 
-/-- **The probe round re-arms its loop exactly once.** `probe_random_member` keeps connection state, token and
-    epoch, and — unless a send fails with `Encode` (a header larger than the packet) — ends by scheduling exactly
-    one probe timer of the current epoch; `IncompleteProbeCycle` is reported only after that. -/
-theorem probeRandomMember_rearms (c : Ctx) : Rearmed c (probeRandomMember E c) := by
+/-- **The probe round re-arms its loop exactly once.** `probe_random_member` keeps connection state, token, epoch
+    and configuration, and — unless a send fails with `Encode` (a header larger than the packet) — schedules
+    exactly one probe timer of the current epoch; `IncompleteProbeCycle` is reported only after that. -/
+theorem probeRandomMember_rearms (c : Ctx) : ProbeRound c (probeRandomMember E c) := by
   unfold Foca.probeRandomMember
   rw [bind_run, getS_run]
   simp only []
   by_cases hdbg : (E.debug && c.s.conn != .connected) = true
-  · simp only [hdbg, if_true, panicAt_run, Rearmed]
+  · simp only [hdbg, if_true, panicAt_run, ProbeRound]
   · simp only [hdbg, Bool.false_eq_true, if_false]
     by_cases hinc : (!c.s.probe.validate) = true
     · simp only [hinc, if_true]
       rw [bind_run, modS_run]
       simp only []
-      exact probeTail_rearms E c true _ ⟨rfl, rfl, rfl, rfl⟩
+      exact probeTail_rearms E c true _ ⟨rfl, rfl, rfl, rfl, rfl⟩
     · have hinc' : (!c.s.probe.validate) = false := by simpa using hinc
       simp only [hinc', Bool.false_eq_true, if_false]
-      exact probeTail_rearms E c false c ⟨rfl, rfl, rfl, rfl⟩
+      exact probeTail_rearms E c false c ⟨rfl, rfl, rfl, rfl, rfl⟩
+
+/-- a periodic timer's outcome: re-armed exactly when it is effective and its task is still enabled — before
+    anything is sent, so also when a send fails — and otherwise nothing the accounting looks at changes -/
+def PeriodicRound (k : LoopKind) (tok : Nat) (c0 : Ctx) (r : R Unit) : Prop :=
+  match r with
+  | .ok _ c' => if tok = c0.s.token ∧ c0.s.conn = .connected ∧ k.en c0.s.cfg = true
+      then Rearmed k c0 c'.s c'.eff else QuietSince k c0 c'.s c'.eff
+  | .err _ c' => if tok = c0.s.token ∧ c0.s.conn = .connected ∧ k.en c0.s.cfg = true
+      then Rearmed k c0 c'.s c'.eff else QuietSince k c0 c'.s c'.eff
+  | .stuck _ => True
+
+theorem rearmed_of_quiet {k : LoopKind} {c0 c1 : Ctx} (h1 : c1.s = c0.s) (h2 : loopToks k c1.eff = loopToks k c0.eff ++ [c0.s.token])
+    {m : M Unit} (hm : PresC (QuietSince k c1) m) :
+    match m c1 with
+    | .ok _ c' => Rearmed k c0 c'.s c'.eff
+    | .err _ c' => Rearmed k c0 c'.s c'.eff
+    | .stuck _ => True := by
+  have := hm.run c1 ⟨rfl, rfl, rfl, rfl, rfl⟩
+  cases hr : m c1 with
+  | stuck x => trivial
+  | ok u c' =>
+    rw [hr] at this
+    obtain ⟨a, b, d, e, f⟩ := this
+    exact ⟨by rw [a, h1], by rw [b, h1], by rw [d, h1], by rw [e, h1], by rw [f, h2]⟩
+  | err e' c' =>
+    rw [hr] at this
+    obtain ⟨a, b, d, e, f⟩ := this
+    exact ⟨by rw [a, h1], by rw [b, h1], by rw [d, h1], by rw [e, h1], by rw [f, h2]⟩
+
+theorem periodicAnnounce_round (tok : Nat) (c : Ctx) : PeriodicRound .pa tok c (handleTimer E (.pa tok) c) := by
+  have K := fun c1 => CoreC.of_frame E (QuietSince.frame .pa c1)
+  unfold PeriodicRound Foca.handleTimer
+  rw [bind_run, getS_run]
+  simp only []
+  by_cases hg : (tok == c.s.token && c.s.conn == .connected) = true
+  · have hg' : tok = c.s.token ∧ c.s.conn = .connected := by simpa using hg
+    simp only [hg, if_true]
+    cases hpa : c.s.cfg.pa with
+    | none =>
+      have : ¬ (tok = c.s.token ∧ c.s.conn = .connected ∧ LoopKind.en .pa c.s.cfg = true) := by
+        simp [LoopKind.en, hpa]
+      simp only [pure_run, this, if_false]
+      exact ⟨rfl, rfl, rfl, rfl, rfl⟩
+    | some p =>
+      have hen : tok = c.s.token ∧ c.s.conn = .connected ∧ LoopKind.en .pa c.s.cfg = true := by
+        simp [LoopKind.en, hpa, hg'.1, hg'.2]
+      simp only []
+      rw [bind_run, emit_run]
+      simp only []
+      have := rearmed_of_quiet (k := .pa) (c0 := c) (c1 := { c with eff := c.eff ++ [.timer p.freq (.pa c.s.token)] }) rfl
+        (by rw [loopToks_append]; simp [loopToks, LoopKind.sel]) ((K _).chooseAndSend p.num .announce)
+      cases hr : chooseAndSend E p.num .announce { c with eff := c.eff ++ [.timer p.freq (.pa c.s.token)] } with
+      | stuck x => trivial
+      | ok u c' => rw [hr] at this; simp only [hen, and_self, if_true]; exact this
+      | err e c' => rw [hr] at this; simp only [hen, and_self, if_true]; exact this
+  · have : ¬ (tok = c.s.token ∧ c.s.conn = .connected ∧ LoopKind.en .pa c.s.cfg = true) := by
+      intro h; apply hg; simp [h.1, h.2.1]
+    simp only [hg, Bool.false_eq_true, if_false, pure_run, this]
+    exact ⟨rfl, rfl, rfl, rfl, rfl⟩
+
+theorem periodicAnnounceDown_round (tok : Nat) (c : Ctx) : PeriodicRound .pad tok c (handleTimer E (.pad tok) c) := by
+  have K := fun c1 => CoreC.of_frame E (QuietSince.frame .pad c1)
+  unfold PeriodicRound Foca.handleTimer
+  rw [bind_run, getS_run]
+  simp only []
+  by_cases hg : (tok == c.s.token && c.s.conn == .connected) = true
+  · have hg' : tok = c.s.token ∧ c.s.conn = .connected := by simpa using hg
+    simp only [hg, if_true]
+    cases hpad : c.s.cfg.pad with
+    | none =>
+      have : ¬ (tok = c.s.token ∧ c.s.conn = .connected ∧ LoopKind.en .pad c.s.cfg = true) := by
+        simp [LoopKind.en, hpad]
+      simp only [pure_run, this, if_false]
+      exact ⟨rfl, rfl, rfl, rfl, rfl⟩
+    | some p =>
+      have hen : tok = c.s.token ∧ c.s.conn = .connected ∧ LoopKind.en .pad c.s.cfg = true := by
+        simp [LoopKind.en, hpad, hg'.1, hg'.2]
+      simp only []
+      rw [bind_run, emit_run]
+      simp only []
+      have := rearmed_of_quiet (k := .pad) (c0 := c) (c1 := { c with eff := c.eff ++ [.timer p.freq (.pad c.s.token)] }) rfl
+        (by rw [loopToks_append]; simp [loopToks, LoopKind.sel]) ((K _).announceToDown p.num)
+      cases hr : announceToDown E p.num { c with eff := c.eff ++ [.timer p.freq (.pad c.s.token)] } with
+      | stuck x => trivial
+      | ok u c' => rw [hr] at this; simp only [hen, and_self, if_true]; exact this
+      | err e c' => rw [hr] at this; simp only [hen, and_self, if_true]; exact this
+  · have : ¬ (tok = c.s.token ∧ c.s.conn = .connected ∧ LoopKind.en .pad c.s.cfg = true) := by
+      intro h; apply hg; simp [h.1, h.2.1]
+    simp only [hg, Bool.false_eq_true, if_false, pure_run, this]
+    exact ⟨rfl, rfl, rfl, rfl, rfl⟩
+
+theorem periodicGossip_round (tok : Nat) (c : Ctx) : PeriodicRound .pg tok c (handleTimer E (.pg tok) c) := by
+  have K := fun c1 => CoreC.of_frame E (QuietSince.frame .pg c1)
+  unfold PeriodicRound Foca.handleTimer
+  rw [bind_run, getS_run]
+  simp only []
+  by_cases hg : (tok == c.s.token && c.s.conn == .connected) = true
+  · have hg' : tok = c.s.token ∧ c.s.conn = .connected := by simpa using hg
+    simp only [hg, if_true]
+    cases hpg : c.s.cfg.pg with
+    | none =>
+      have : ¬ (tok = c.s.token ∧ c.s.conn = .connected ∧ LoopKind.en .pg c.s.cfg = true) := by
+        simp [LoopKind.en, hpg]
+      simp only [pure_run, this, if_false]
+      exact ⟨rfl, rfl, rfl, rfl, rfl⟩
+    | some p =>
+      have hen : tok = c.s.token ∧ c.s.conn = .connected ∧ LoopKind.en .pg c.s.cfg = true := by
+        simp [LoopKind.en, hpg, hg'.1, hg'.2]
+      simp only []
+      rw [bind_run, emit_run]
+      simp only []
+      have hm : PresC (QuietSince .pg { c with eff := c.eff ++ [.timer p.freq (.pg c.s.token)] })
+          (if (!c.s.updates.isEmpty || !c.s.custom.isEmpty) = true then chooseAndSend E p.num .gossip else pure ()) := by
+        split
+        · exact (K _).chooseAndSend p.num .gossip
+        · exact PresC.pure _
+      have := rearmed_of_quiet (k := .pg) (c0 := c) (c1 := { c with eff := c.eff ++ [.timer p.freq (.pg c.s.token)] }) rfl
+        (by rw [loopToks_append]; simp [loopToks, LoopKind.sel]) hm
+      cases hr : (if (!c.s.updates.isEmpty || !c.s.custom.isEmpty) = true then chooseAndSend E p.num .gossip else pure ())
+          { c with eff := c.eff ++ [.timer p.freq (.pg c.s.token)] } with
+      | stuck x => trivial
+      | ok u c' => rw [hr] at this; simp only [hen, and_self, if_true]; exact this
+      | err e c' => rw [hr] at this; simp only [hen, and_self, if_true]; exact this
+  · have : ¬ (tok = c.s.token ∧ c.s.conn = .connected ∧ LoopKind.en .pg c.s.cfg = true) := by
+      intro h; apply hg; simp [h.1, h.2.1]
+    simp only [hg, Bool.false_eq_true, if_false, pure_run, this]
+    exact ⟨rfl, rfl, rfl, rfl, rfl⟩
 
 end
 end Foca
